@@ -56,6 +56,37 @@ CLAIMS.update({
          "Lean 4 proof (invariant over call lists) + Spec on implementation observations + correspondence"),
 })
 
+CLAIMS.update({
+ "C02": ("Handler level proved: every reply handler changes the stored size by exactly the base amount the vAMM reports, with the direction's sign (EngineMoney: partialLiquidationReply_spec, closePositionReply_spec, liquidateReply_spec, reversePositionReply_fees; updateReserve moves the vAMM's net by the same amount, C01.ur_add/ur_rem), a reducing or partially closing trade never flips a position (CurveNoFlip, under the regular-curve side conditions), and no transaction touches another trader's position or leaves residue (WorldInv). The world-level invariant (Mirror.mirror_invariant_partial) is being assembled from these. "
+         "Spec.C02 evaluates 'sum of all decoded positions = vAMM net' after EVERY transaction (successful or not) of every generated history; it found the partial-liquidation defect that was repaired (fix 4aa1bc2).",
+         "World-level theorem in progress; the partial-close-of-a-short no-flip lemma needs spot price >= 1 (counterexample at price 1/9 is a checked example).",
+         "Lean 4 proof (handler inversions, curve arithmetic) + Spec on full storage dumps + correspondence"),
+ "C04": ("Proved (EngineMoney): a whole close pays exactly margin + realised PnL - funding (calcRemainMargin_spec, closePositionReply_spec), is rejected with bad debt, erases the position and leaves other positions alone; a partial close with bad debt is rejected; withdraw() books exactly the vault's shortfall as prepaid bad debt and requests exactly that from the insurance fund (withdraw_spec). Spec.C04 recomputes the equity from observations (position, cumulative fraction, quote moved by the vAMM) and compares it with the transfers to the trader, and checks the insurance-fund drain bound on every trader-initiated call.",
+         "The transaction-level composition (handler + dispatcher) is validated by correspondence on every generated close; its Lean proof is handler-level.",
+         "Lean 4 proof (handler inversion, Int arithmetic) + Spec on implementation observations + correspondence"),
+ "C05": ("Proved: leverage below 1 or above 1/initial ratio rejects the whole transaction (WorldInv.leverage_tx_rejected), the last guard of every open flow is margin ratio >= maintenance on the stored post-trade position and the ratio does not depend on the fields changed afterwards (EngineMoney.updatePositionReply_ratio), withdrawal reduces the margin by amount + funding, moves the checkpoint and is covered by free collateral, deposit raises the margin by exactly the amount taken (withdrawMargin_spec, depositMargin_spec). Spec.C05 checks the same on the implementation with the engine's own ratio / free-collateral definitions (validated by QRY correspondence).",
+         "",
+         "Lean 4 proof + Spec on implementation observations + query correspondence"),
+ "C06": ("Proved (handler level): liquidate() proceeds only when the (oracle-lifted) ratio is <= maintenance (EngineGuards / liquidate inversion), a full liquidation pays the liquidator half the penalty, sends the remaining margin to the insurance fund, erases the position and pays the trader nothing; a partial liquidation changes the size by exactly the base amount, keeps its sign side, and pays fund and liquidator half the penalty each (EngineMoney.liquidateReply_spec, partialLiquidationReply_spec). Spec.C06 recomputes the liquidation ratio (spot / TWAP / oracle rule) from the pre-state and checks payouts from the transfer list; it found and led to the repair of the partial-liquidation branch defect.",
+         "",
+         "Lean 4 proof + Spec on implementation observations + correspondence"),
+ "C07": ("The full liveness statement is FALSE of the unchanged code; known findings C07-F2 (partial path arithmetic underflow for under-water positions; a checked witness is LiqTwin.partial_path_underflows) and C07-F3 (repository price feed unreadable by the vAMM) are reported as KNOWN-FINDING. Proved partial results: the execute half of Liquidate has no failure path of its own on the full-liquidation path (LiqTwin.liquidate_full_path_live), liquidation and funding ignore the pause flag (EngineGuards). Spec.C07 evaluates the property's precondition on every attempted liquidation and flags any rejection whose error class is not one of the listed findings.",
+         "Liveness through the dispatcher (transfers, insurance fund) is checked on the implementation only.",
+         "Lean 4 partial proof + checked counter-witness + Spec (liveness monitor) on implementation"),
+ "C10": ("Proved for the world model (WorldInv.others_untouched): for every transaction of every kind, the stored position of any trader other than the sender (and the trader named by a Liquidate) is unchanged, not created and not removed; execute and every reply write only the in-flight trader's key. Spec.C10 compares the whole decoded position bucket before/after every transaction.",
+         "Position keys are assumed injective in (vamm, trader); key-alias probes (suffix-related account names) are part of the generator.",
+         "Lean 4 proof (invariant over the dispatcher) + Spec on full bucket dumps"),
+ "C12": ("Proved (handler level): transfer_fees emits exactly the spread to the insurance fund and the toll to the fee pool as quoted by the vAMM (EngineGuards.transferFees_spec), an open charges them exactly once on the requested notional — in update_position_reply unless the reversal leg already did, in which case the flag suppresses it (EngineMoney.updatePositionReply_fees, reversePositionReply_fees) — and a close charges them on the open notional (closePositionReply_spec). Spec.C12 checks fee-pool and insurance-fund deltas and the transfer list on every open/close, and that deposit/withdraw/funding/liquidation charge nothing.",
+         "",
+         "Lean 4 proof + Spec on implementation observations + correspondence"),
+ "C13": ("Twin runs: two deployments identical except the collateral are driven in lock-step with the native call attaching exactly what the cw20 run pulled; Spec.C13 compares accept/reject, positions, vAMM and engine state and per-account balance deltas after every operation. Three genuine divergences of the unchanged code are reported as KNOWN-FINDING (C13-F10a/a2 reversal accounting, C13-F10b close with vault shortfall, C13-F10c closing fee paid by the vault). Proved (LiqTwin): for every handler that does not read attached funds the native engine does exactly what the cw20 engine does with each transfer in native form, a deposit changes the stored margin identically, and both transfer forms have the same ledger effect.",
+         "The relational theorem covers handlers, not whole transactions; open/reversal flows (where the known divergences live) are excluded from it.",
+         "Lean 4 partial relational proof + lock-step twin differential on the implementation"),
+ "C16": ("Proved: a restricted sender's Open/Close transaction is rejected (WorldInv.restricted_tx_rejected), an unrestricted one passes this guard (EngineGuards.unrestricted_passes), both liquidation replies set the restriction block (liquidateReply_restricts, partialLiquidationReply_restricts). Spec.C16 derives 'a liquidation happened on this vAMM in this block' from the observed history (not from the engine's marker) and checks every Open/Close of the block; generator campaigns replay trader / liquidator / bystander actions in the liquidation block and the next one.",
+         "",
+         "Lean 4 proof + history-aware Spec on implementation observations + correspondence"),
+})
+
 NOT_YET = "not claimed in this commit: world-level model/theorems under construction (DESIGN.md §8 build order)"
 
 def chk(pid, text, note, tech):
